@@ -225,6 +225,22 @@ func XorAddr(ip net.IP, port int, txid [12]byte) []byte {
 	return out
 }
 
+// XorAddrMapped encodes an IPv4 address in its IPv4-mapped, family IPv6 spelling (::ffff:a.b.c.d).
+func XorAddrMapped(ip net.IP, port int, txid [12]byte) []byte {
+	key := make([]byte, 16)
+	binary.BigEndian.PutUint32(key[0:4], MagicCookie)
+	copy(key[4:], txid[:])
+	ip16 := ip.To16()
+	out := make([]byte, 20)
+	out[1] = 2
+	for i := 0; i < 16; i++ {
+		out[4+i] = ip16[i] ^ key[i]
+	}
+	binary.BigEndian.PutUint16(out[2:4], uint16(port)^uint16(MagicCookie>>16)) //nolint:gosec
+
+	return out
+}
+
 // UnxorAddr decodes an XOR-*-ADDRESS value strictly (exact sizes).
 func UnxorAddr(v []byte, txid [12]byte) (net.IP, int, error) {
 	if len(v) < 4 || v[0] != 0 {
